@@ -44,8 +44,10 @@ def parseOp (s : String) : Option Op :=
   | ['F', p, k] =>
     match (match p with | 'u' => some FPoint.cursor | 'x' => some .execute | 'c' => some .commit
                          | 'r' => some .rollback | _ => none),
-          (match k with | 'e' => some FKind.err | 'd' => some .disc | _ => none) with
+          (match k with | 'e' => some FKind.err | 'd' => some .disc | 'k' => some .kbi | _ => none) with
     | some .cursor, some .err => none
+    | some .cursor, some .kbi => none
+    | some .execute, some .kbi => none
     | some p, some k => some (.arm p k)
     | _, _ => none
   | c :: rest =>
@@ -66,6 +68,7 @@ def opHandle? : Op → Option Nat
 def showRes : Res → String
   | .ok => "ok" | .invalidRequest => "IRE" | .pendingRollback => "PRE"
   | .resourceClosed => "RCE" | .integrity => "IE" | .operational => "OE" | .disconnect => "DISC"
+  | .interrupted => "KBI"
 
 def showOpt : Option Nat → String
   | some n => toString n | none => "N"
@@ -82,8 +85,9 @@ def showState (r : Res) (c : Conn) (sel : Option Data) : String :=
     showOpt c.transaction, showOpt c.nested, showOpt c.ctxMgr,
     (if c.txns.isEmpty then "-" else String.join (c.txns.map (fun t => b2s t.active))),
     showNatList (sortNats c.db.committed),
-    (if c.hasDbapi then showNatList (sortNats c.db.raw.working) else "x"),
-    (if c.hasDbapi then toString c.db.raw.rid ++ (if c.db.raw.autocommit then "a" else "")
+    (if c.zombie then "DEAD" else if c.hasDbapi then showNatList (sortNats c.db.raw.working) else "x"),
+    (if c.zombie then toString c.db.raw.rid ++ "!"
+     else if c.hasDbapi then toString c.db.raw.rid ++ (if c.db.raw.autocommit then "a" else "")
         ++ (if c.db.raw.readUnc then "u" else "") else "x"),
     showIdle c.db.idle,
     toString c.warns ]
@@ -106,7 +110,7 @@ def runOps : Bool → Conn → List Op → Option (List String)
     let gone' := match op with
       | .gc => true
       | .connect => false
-      | _ => gone
+      | _ => gone || r == .interrupted   -- after an interrupt the program only lets go of the Connection
     match runOps gone' c' ops with
     | some rest => some (showState r c' sel :: rest)
     | none => none
